@@ -45,7 +45,8 @@ theorem path_core (c : Ctx) (cfg : Cfg) (top : Bool) (h : Head) (ss : List Step)
         ∃ tb' te', ∀ rest, execFrom c ⟨[], sv, rt, tb, te⟩ (tkPath p (.mk h ss fns) ++ rest) =
           execFrom c ⟨[.chain (Build.markVg (linkedOf c.acc h sp fns))], sv, rt, tb', te'⟩ rest) ∧
     (∀ e, buildPath c.env cfg top (pathT (.mk h ss fns)) = .error e →
-      ∃ pos, ∀ rest, execFrom c ⟨[], sv, rt, tb, te⟩ (tkPath p (.mk h ss fns) ++ rest) = .error (stopOf pos e)) := by
+      ∀ rest, execFrom c ⟨[], sv, rt, tb, te⟩ (tkPath p (.mk h ss fns) ++ rest) =
+        .error (stopOf (posPath c.env cfg p (.mk h ss fns)) e)) := by
   simp only [path, List.cons_append, List.append_assoc] at hsfx
   have h1 := hsfx.tail
   have hss := stepsSim_of c cfg ss (p + 1) _ hs h1
@@ -66,8 +67,8 @@ theorem path_core (c : Ctx) (cfg : Cfg) (top : Bool) (h : Head) (ss : List Step)
     refine ⟨fun ch hch => (by rw [hb] at hch; cases hch), fun e he => ?_⟩
     rw [hb] at he
     cases he
-    obtain ⟨pos, ex⟩ := hss.err _ hsp [.chain [headRaw c.acc h]] sv rt tb te (by simp)
-    exact ⟨pos, fun rest => by rw [hstart, ex]⟩
+    have ex := hss.err _ hsp [.chain [headRaw c.acc h]] sv rt tb te (by simp)
+    exact fun rest => by rw [hstart, ex, posPath]
   | ok sp =>
     have hnice := stepsPre_nice c.env cfg _ sp hsp
     obtain ⟨groups, hg1, hg2, tb1, te1, e1⟩ := hss.ok sp hsp [.chain [headRaw c.acc h]] sv rt tb te (by simp)
@@ -98,8 +99,8 @@ theorem path_core (c : Ctx) (cfg : Cfg) (top : Bool) (h : Head) (ss : List Step)
       refine ⟨fun ch hch => (by rw [hb] at hch; cases hch), fun e he => ?_⟩
       rw [hb] at he
       cases he
-      refine ⟨0, fun rest => ?_⟩
-      rw [hstart, e1]
+      intro rest
+      rw [hstart, e1, stopOf_fn _ 0]
       exact exec_fns_missing c sv rt fs1 f fs2 _ r _ tb1 te1
         (fun g hg => ⟨hk g (by simp [hg]), hf1 g hg⟩) (hk f (by simp)) hf2 h2 _
 
@@ -139,22 +140,38 @@ theorem paramSim_of (c : Ctx) (cfg : Cfg) (h : Head) (ss : List Step) (fns : Lis
       rw [← hm] <;> rfl
   · intro e he stk sv rt tb te hstk
     obtain ⟨_, herr⟩ := path_core c cfg false h ss fns hs hk hsfx (stk :: sv) rt tb te
-    obtain ⟨pos, ex⟩ := herr e he
-    refine ⟨pos, fun rest => ?_⟩
+    have ex := herr e he
+    intro rest
     simp only [List.cons_append, List.append_assoc]
     rw [hsave _ _ _ _ _ hstk, ex]
 
 variable (env : Env) (ext : Ext) (cfg : Cfg)
 
+/-- the outcome of `Parse` for an answer of `Build`: the same chain, or the error value (a syntax
+    error at rune `pos` of `input`) -/
+def outcomeOfBuild (input : Array Char) (pos : Nat) : Except ParseErr (List N) → ParseOutcome
+  | .ok ch => .ok ch
+  | .error e => outcomeOfStop input (stopOf pos e)
+
+/-- what `Parse` answers on the printed path, EXACTLY, as a function of what `Build.build` answers on
+    the recorded texts: the same chain, or the error value with the position `errPos` -/
+def expected (p : Path) : ParseOutcome :=
+  outcomeOfBuild (print p).toArray (errPos env cfg p) (Build.build env cfg (texts p))
+
+theorem agree_expected (p : Path) : Agree (Build.build env cfg (texts p)) (expected env cfg p) := by
+  unfold expected
+  cases Build.build env cfg (texts p) with
+  | ok ch => rfl
+  | error e => cases e <;> rfl
+
 /-- `parseModel` on the printed path, given the simulation of its steps -/
-theorem parse_print_of_sim (ss : List Step) (fns : List Fn)
+theorem parse_print_exact_of_sim (ss : List Step) (fns : List Fn)
     (hrec : recognise (print (.mk .root ss fns)).toArray =
       .ok (print (.mk .root ss fns)).length (tkExpr (.mk .root ss fns)))
     (hs : ∀ s ∈ ss, StepSim ⟨env, ext, cfg.accessor, (print (.mk .root ss fns)).toArray⟩ cfg false s)
     (hk : ∀ f ∈ fns, fnKindOK env f) :
-    Agree (Build.build env cfg (texts (.mk .root ss fns)))
-      (parseModel env ext cfg (printS (.mk .root ss fns))) := by
-  rw [parseModel_print, parseInput_of_recognise env ext cfg hrec, exec_expr_eq]
+    parseModel env ext cfg (printS (.mk .root ss fns)) = expected env cfg (.mk .root ss fns) := by
+  rw [expected, parseModel_print, parseInput_of_recognise env ext cfg hrec, exec_expr_eq]
   have hsfx : Sfx (print (.mk .root ss fns)).toArray 0 (path (.mk .root ss fns) ++ []) := by
     simpa [print] using Sfx.zero (print (.mk .root ss fns))
   obtain ⟨hok, herr⟩ := path_core ⟨env, ext, cfg.accessor, (print (.mk .root ss fns)).toArray⟩ cfg true .root ss fns
@@ -178,12 +195,22 @@ theorem parse_print_of_sim (ss : List Step) (fns : List Fn)
         · obtain ⟨f, _, rfl⟩ := List.mem_map.mp hq
           cases f <;> trivial
     have := (hTA.markVg).delRoot
-    show connChain "" (delRoot (Build.markVg (linkedOf cfg.accessor .root sp fns))) =
-      ccChain true "" (setAccChain (true && cfg.accessor) (delRoot (Build.markVg (linkedOf cfg.accessor .root sp fns))))
+    show ParseOutcome.ok (connChain "" (delRoot (Build.markVg (linkedOf cfg.accessor .root sp fns)))) =
+      ParseOutcome.ok (ccChain true "" (setAccChain (true && cfg.accessor)
+        (delRoot (Build.markVg (linkedOf cfg.accessor .root sp fns)))))
     simp only [ccChain, Bool.true_and, if_true, this.setAcc]
   | error e =>
-    obtain ⟨pos, ex⟩ := herr e hb
-    rw [ex]
-    cases e <;> rfl
+    rw [herr e hb]
+    rfl
+
+theorem parse_print_of_sim (ss : List Step) (fns : List Fn)
+    (hrec : recognise (print (.mk .root ss fns)).toArray =
+      .ok (print (.mk .root ss fns)).length (tkExpr (.mk .root ss fns)))
+    (hs : ∀ s ∈ ss, StepSim ⟨env, ext, cfg.accessor, (print (.mk .root ss fns)).toArray⟩ cfg false s)
+    (hk : ∀ f ∈ fns, fnKindOK env f) :
+    Agree (Build.build env cfg (texts (.mk .root ss fns)))
+      (parseModel env ext cfg (printS (.mk .root ss fns))) := by
+  rw [parse_print_exact_of_sim env ext cfg ss fns hrec hs hk]
+  exact agree_expected env cfg _
 
 end JPV.PP
